@@ -819,12 +819,8 @@ Definition encode_message (m : message) : list N :=
 Definition decode_api_guarded (buffer : list N) : res api_message :=
   if Nlen buffer <? 4 then Err else decode_api buffer.
 
-(* Message::deserialize *)
-Definition decode_message (buffer0 : list N) : res message :=
-  if Nlen buffer0 =? 0 then Err else
-  do tb <- sl 501 0 1 buffer0;
-  let message_type := be_dec tb in
-  do buffer <- sl_from 502 1 buffer0;
+(* the [match message_type { .. }] of Message::deserialize *)
+Definition decode_message_body (message_type : N) (buffer : list N) : res message :=
   if message_type =? 1 then do r <- decode_hs_challenge buffer; Ok (MHandshakeChallenge r)
   else if message_type =? 2 then do r <- decode_hs_response buffer; Ok (MHandshakeResponse r)
   else if message_type =? 3 then do b <- decode_block buffer; Ok (MBlock b)
@@ -854,6 +850,14 @@ Definition decode_message (buffer0 : list N) : res message :=
     do l <- dec_chunks 508 33 (fun x => x) (N.to_nat key_count) 0 buffer;
     Ok (MKeyListUpdate l)
   else Err.
+
+(* Message::deserialize *)
+Definition decode_message (buffer0 : list N) : res message :=
+  if Nlen buffer0 =? 0 then Err else
+  do tb <- sl 501 0 1 buffer0;
+  let message_type := be_dec tb in
+  do buffer <- sl_from 502 1 buffer0;
+  decode_message_body message_type buffer.
 
 (* what a message looks like after serialize + deserialize (the block inside
    a Block message goes through serialize_for_net(Full)) *)
